@@ -207,6 +207,24 @@ class Runner:
             b, s_, r, c = cell['at']
             m.from_dict({G.qual_full(spec, b, s_) + G.a1(r, c): G.const_out(op[3])})
             self.specs[op[1]] = spec
+        elif k == 'extend':
+            # the user adds a formula cell to THIS object: =SUM(<rectangle of existing cells>)+<n> in a free cell
+            spec = copy.deepcopy(self.specs[op[1]])
+            pop = W.populated(spec)
+            arr = O.array_cells(spec)
+            cands = sorted(k_ for k_ in pop if k_ not in arr)
+            if not cands:
+                return
+            b, s_, r, c = cands[op[2] % len(cands)]
+            r2 = r + 1 if (b, s_, r + 1, c) in pop and (b, s_, r + 1, c) not in arr else r
+            c2 = c + 1 if all((b, s_, rr, c + 1) in pop and (b, s_, rr, c + 1) not in arr for rr in range(r, r2 + 1)) else c
+            row = 10
+            while (b, s_, row, 7) in pop:
+                row += 1
+            tree = ['bin', '+', ['fn', 'SUM', ['rng', [b, s_, r, c, r2, c2]]], ['num', float(op[3])]]
+            spec['cells'].append({'at': [b, s_, row, 7], 'f': tree})
+            m.from_dict({G.qual_full(spec, b, s_) + G.a1(row, 7): '=' + G.render(spec, tree, (b, s_, row, 7), True)})
+            self.specs[op[1]] = spec
         elif k == 'copy':
             src, dst, how = op[1], op[2], op[3]
             self.objs[dst] = do_copy(self.objs[src], how)
@@ -256,7 +274,7 @@ def histories(draw, tier, max_ops=8, objects=('A',), copies=('deepcopy',), name_
         live.append(objects[1])
     for i in range(nops):
         last = end_with_calc and i == nops - 1
-        kinds = ['calc', 'calc', 'calc', 'call', 'to_dict', 'write', 'finish', 'copy', 'copy'] + (['edit', 'edit'] if edits else [])
+        kinds = ['calc', 'calc', 'calc', 'call', 'to_dict', 'write', 'finish', 'copy', 'copy'] + (['edit', 'edit', 'extend', 'extend'] if edits else [])
         k = 'calc' if last else draw(st.sampled_from(kinds))
         obj = draw(st.sampled_from(live))
         if k == 'calc':
@@ -290,6 +308,9 @@ def histories(draw, tier, max_ops=8, objects=('A',), copies=('deepcopy',), name_
             how = draw(st.sampled_from(list(copies)))
             ops.append(['copy', obj, free[0], how])
             live.append(free[0])
+        elif k == 'extend':
+            # only the original keeps its cells (copies drop them by __getstate__), so only it can be extended
+            ops.append(['extend', 'A', draw(st.integers(0, 40)), draw(st.integers(0, 9))])
         elif k == 'edit':
             ops.append(['edit', obj, draw(st.integers(0, 30)), draw(st.sampled_from([11.0, -7.0, 0.0, 2.5, 'edited', True]))])
         elif k == 'write':
